@@ -49,7 +49,10 @@ def reader_run(tid, unit, cls, frs, chunks):
             if b >= L:
                 if out == 'ok':
                     try:
-                        same = same and bytes(obj.compose()) == frs[got]
+                        # the record that arrives is the record that was sent: equal to the frame parsed on its own (a frame
+                        # in a non-canonical spelling, e.g. a padded SSL 2.0 record, need not recompose to the same bytes)
+                        exp = cls.parse_exact_size(frs[got])
+                        same = same and (obj == exp or bytes(obj.compose()) == bytes(exp.compose()))   # classes without __eq__
                     except Exception:  # pylint: disable=broad-except
                         same = False
                     if len(buf) != b - n:
